@@ -655,11 +655,40 @@ fn c06_one(ctx: &mut Ctx, c: &DayCase) {
     }
 }
 
+/// the same date and meridian at the latitudes where an event starts or stops existing: just outside
+/// the exempt band on either side of each existence boundary (the property is a statement about
+/// exactly these places; uniform sampling of latitudes rarely lands within a third of a degree of one)
+fn c06_edges(ctx: &mut Ctx, c: &DayCase) {
+    let dd = dec_of_date(c);
+    let targets = [-c.p.angles[&Prayer::Fajr], -0.8333, -c.p.angles[&Prayer::Isha]];
+    for t in targets {
+        let edges = [(90. + t) - dd, -(90. + t) - dd, dd + (90. - t), dd - (90. - t)];
+        for b in edges {
+            for off in [-0.35, -0.2, -0.1, -0.06, 0.06, 0.1, 0.2, 0.35] {
+                let la: f64 = b + off;
+                if la.abs() > 89.5 || ctx.fails > 0 {
+                    continue;
+                }
+                ctx.branch("edge-probe");
+                let mut e = c.clone();
+                e.l.coords.latitude = Latitude::try_from(la).unwrap();
+                c06_one(ctx, &e);
+            }
+        }
+    }
+}
+
 pub fn c06(ctx: &mut Ctx, tier: &str, r: &mut Rng, js: &[Value], reqs: &[String], replay_only: bool) {
     ctx.shrinker = Some(c06_one);
+    let mut probed = 0;
     for c in cases_from(js, reqs) {
         if lat(&c).abs() <= 89.5 && c.p.intervals[&Prayer::Fajr] == 0. && c.p.intervals[&Prayer::Isha] == 0. {
-            c06_one(ctx, &c.with(|p| p.extreme_latitude_method = ExtremeLatitudeMethod::None));
+            let c = c.with(|p| p.extreme_latitude_method = ExtremeLatitudeMethod::None);
+            c06_one(ctx, &c);
+            if !replay_only && probed < 60 {
+                probed += 1;
+                c06_edges(ctx, &c);
+            }
         }
     }
     if replay_only {
@@ -678,6 +707,9 @@ pub fn c06(ctx: &mut Ctx, tier: &str, r: &mut Rng, js: &[Value], reqs: &[String]
             ctx.sample(c.to_json());
         }
         c06_one(ctx, &c);
+        if i % 50 == 7 {
+            c06_edges(ctx, &c);
+        }
     }
     ctx.finish(json!({}));
 }
